@@ -1301,9 +1301,7 @@ def parse_unitvalue(s="") :
         units = parse_units("")
     else :
         value = float(tok[0])
-        us = ""
-        for i in range(1, len(tok)):
-            us += tok[i]
+        us = " ".join(tok[1:]) # blanks inside the units are kept, for parse_units to reject them
         units = parse_units(us)
     return UnitValue(value, units)
 
